@@ -226,4 +226,44 @@ def rangesDischarged : Bool := mapRanges.all fun r => expectedRanges.any fun e =
 /-- **regenerated obligation** -/
 theorem C07_sites_discharged : rangesDischarged = true := by decide
 
+/-! ## Regenerated inventory of orderings on token positions
+
+`token.Pos` values of two files of a package are ordered by the schedule of the loader's parser
+goroutines: only comparisons inside one file (or containment of a given position in a node / file)
+are functions of the sources. -/
+
+inductive PosDischarge
+  | containment   -- is a given position inside this node / file: true of exactly one file whatever the bases
+  | sameFile      -- both positions belong to the analysed source file (objects filtered by file name just before)
+deriving DecidableEq, Repr
+
+def expectedPosOrders : List (PosOrder × PosDischarge) := [
+  (⟨"analysis/analysis.go", "NewAnalysisFromFile", "objs[i].Pos() < objs[j].Pos()"⟩, .sameFile),
+  (⟨"analysis/analysis.go", "nodeAtFile", "n.Pos() <= pos"⟩, .containment),
+  (⟨"analysis/analysis.go", "nodeAtFile", "pos < n.End()"⟩, .containment),
+  (⟨"analysis/httpapi/parse.go", "resolveFunc", "n.Pos() <= pos"⟩, .containment),
+  (⟨"analysis/httpapi/parse.go", "resolveFunc", "pos < n.End()"⟩, .containment),
+  (⟨"analysis/httpapi/parse.go", "selectFileByPos", "file.Pos() <= pos"⟩, .containment),
+  (⟨"analysis/httpapi/parse.go", "selectFileByPos", "pos <= file.End()"⟩, .containment)
+]
+
+def posOrdersDischarged : Bool := posOrders.all fun r => expectedPosOrders.any fun e => e.1 == r
+
+/-- **regenerated obligation**: every ordering comparison on token positions in the current sources
+is one of the file-local ones -/
+theorem C07_pos_orders_discharged : posOrdersDischarged = true := by decide
+
+/-! ## Regenerated inventory of writes to package-level state
+
+Output must be a function of the sources, not of what the process generated before: no function
+writes a package-level variable (a memo keyed by package path would outlive the `types.Named`
+pointers of the load it was filled from). -/
+
+def expectedGlobalWrites : List GlobalWrite := []
+
+def globalWritesDischarged : Bool := globalWrites.all fun r => expectedGlobalWrites.contains r
+
+/-- **regenerated obligation**: no write to package-level state from a function body -/
+theorem C07_no_state_between_runs : globalWritesDischarged = true := by decide
+
 end Gomacro.Facts
